@@ -94,6 +94,14 @@ class UserAddNode(ActionGroup):
 
         pred, succ = self.tracks.get_track_neighbors(track_id, time)
 
+        def check_position():
+            # must be called before the first edit, so that a failing AddNode does
+            # not leave the tracks with conflicting or skip edges already removed
+            pos_key = tracks.features.position_key
+            pos_keys = pos_key if isinstance(pos_key, list) else [pos_key]
+            if pixels is None and not all(key in attributes for key in pos_keys):
+                raise ValueError(f"Must provide position or segmentation for node {node}")
+
         # check if you are adding a node to a track that divided previously
         if pred is not None and self.tracks.graph.out_degree(pred) == 2:
             if not force:
@@ -102,6 +110,7 @@ class UserAddNode(ActionGroup):
                     forceable=True,
                 )
             else:
+                check_position()
                 # Delete both conflicting edges in the upstream division.
                 succ_of_pred1, succ_of_pred2 = self.tracks.successors(pred)
                 self.actions.append(
@@ -126,6 +135,7 @@ class UserAddNode(ActionGroup):
                         forceable=True,
                     )
                 else:
+                    check_position()
                     # Delete the conflicting edge
                     self.actions.append(
                         UserDeleteEdge(tracks, (pred_of_succ, succ), _top_level=False)
@@ -144,6 +154,7 @@ class UserAddNode(ActionGroup):
             if lineage_id is not None:
                 attributes[lineage_key] = lineage_id
 
+        check_position()
         # remove skip edge that will be replaced by new edges after adding nodes
         if pred is not None and succ is not None:
             self.actions.append(DeleteEdge(tracks, (pred, succ)))
